@@ -422,13 +422,21 @@ class MPath:
         if not self.exists():
             self.open('w').close()
 
-    def write_text(self, s):
+    def write_text(self, s, encoding=None, errors=None, newline=None):
         with self.open('w') as f:
             f.write(s)
 
-    def read_text(self):
+    def read_text(self, encoding=None, errors=None):
         with self.open('r') as f:
             return f.read()
+
+    def read_bytes(self):
+        with self.open('rb') as f:
+            return f.read()
+
+    def write_bytes(self, b):
+        with self.open('wb') as f:
+            f.write(b)
 
 
 class MHandle:
